@@ -241,8 +241,20 @@ def _one_length(e, case, total, log, sb, poison):
     hdr_budget = [0] * rec.nsrc
     for pos in range(1, len(stack)):
         if RECIPES[stack[pos][0]].hdr_ctor:
-            below = sum(RECIPES[n].stream[1] for n, _ in stack[:pos]
-                        if RECIPES[n].stream)
+            # rows the stages below need from the sources to produce their
+            # header: walk down; a look-ahead of la adds la input rows; a
+            # filter-like stage that must deliver rows (need > 0) may scan
+            # arbitrarily far
+            below = 0
+            for n, _ in reversed(stack[:pos]):
+                st = RECIPES[n].stream
+                if st is None:
+                    below = 10 ** 9
+                    break
+                if st[0] == 'filter' and below > 0:
+                    below = 10 ** 9
+                    break
+                below += st[1]
             for i in range(rec.nsrc):
                 if i in rec.build:
                     hdr_budget[i] += len(tables[i])
